@@ -53,35 +53,60 @@ def poll_set_prunes(prog, chk, rid):
         raise AnalysisBroken("Socket::Poll::Private::set (epoll) not found")
     f = ps[0]
     defs = q.local_defs(f)
-    # the buffered-events word: the target of an `&=` whose (expanded) designation comes out of the selectedSockets table
-    masks = [s for s in q.stores(f) if s.op == "&=" and "selectedSockets" in q.xr(f, s.lhs, defs)]
-    ok = False
-    why = "the buffered events are not masked at all"
-    if masks:
-        t = q.no_casts(C.norm(f, masks[0].rhs, {}, defs))
-        # expected: ~(sockInfo.events & ~events) evaluated with the OLD registered events
-        m = re.match(r"^~\((.+) & ~(\w+)\)$", t)
-        ok = bool(m) and m.group(2) == f.params[1]["n"] and re.search(r"\.events$", m.group(1)) is not None
-        why = "the mask is `%s`, expected ~(registered & ~requested)" % t[:60]
-        if ok:
-            # the old value must be read before sockInfo.events is overwritten
-            rd = None
-            r0 = f.nodes[f.strip(masks[0].rhs)]
-            base = C.base_local(f, masks[0].rhs)
-            if base is not None:
-                for kind, nd, init in defs.get(base["id"], []):
-                    rd = nd
-            ov = [s for s in q.stores(f) if re.search(r"sockInfo\.events$", f.r(s.lhs)) and s.op == "="]
-            if rd is not None and any(q.reaches(f, o.node, rd) for o in ov if f.dominates_pos(f.node_pos(o.node), f.node_pos(masks[0].node))):
-                ok, why = False, "the registered flags are overwritten before the removed set is computed"
-        drop = [c for c in q.calls(f) if re.search(r"selectedSockets\.remove\(", f.r(c))]
-        if ok and not (drop and any(a[0] != "case" and a[1] and fin.key(f, a[0]) == "(%s == 0)" % f.r(masks[0].lhs) for a in fin.dominating_atoms(f, f.node_pos(drop[0])))):
-            ok, why = False, "an emptied buffered entry is not dropped"
-    if ok:
-        chk.ok(rid, f, "Poll::set masks buffered events with exactly the removed flags and drops emptied entries", f.where(masks[0].node), "mask shape + order", evals=3)
+    ev_par = f.params[1]["n"]
+    # the buffered-events word: what the iterator returned by selectedSockets.find() designates
+    iters = [d["n"] for n in f.nodes if n["k"] == "DeclStmt" for d in n["decls"] if d.get("init") is not None and "selectedSockets.find(" in f.r(d["init"])]
+    regs = sorted(set(q.no_casts(f.r(i)) for i, n in enumerate(f.nodes) if n["k"] == "MemberExpr" and n.get("m") == "events" and
+                      re.search(r"^\w+\.events$|^\w+->events$", q.no_casts(f.r(i))) and not q.no_casts(f.r(i)).startswith("ev.")))
+    if not iters or not regs:
+        chk.bad(rid, f, "buffered-events-not-pruned", "%s:%s" % (f.file, f.line),
+                "Poll::set: the buffered events are not looked up at all — an event kind that was just un-registered (e.g. read after suspend()) is still delivered from the buffered round")
+        return
+    word, reg = "*" + iters[0], regs[0]
+
+    def asm(k):
+        m = re.match(r"^\((\w+) (!=|==) this->(\w+)\.end\(\)\)$", k) or re.match(r"^\((\w+) (!=|==) (\w+)\)$", k)
+        if m:
+            return 1 if m.group(2) == "!=" else 0      # the socket is registered and has a buffered entry
+        return None
+    bad = None
+    n_ev = 0
+    for O in range(16):
+        for E in range(16):
+            for B in range(1, 16):
+                if B & ~O:
+                    continue        # only flags that are registered can have been buffered
+                val = {reg: O, ev_par: E, word: B}
+                seen, end_, fv = fin.walk_vals(f, f.entry, val, assume=asm)
+                n_ev += 1
+                if isinstance(end_, str) and end_.startswith("undetermined"):
+                    bad = (O, E, B, "the outcome depends on something else (%s)" % end_)
+                    break
+                removed = any(f.nodes[e]["k"] == "CXXMemberCallExpr" and re.search(r"selectedSockets\.remove\(", f.r(e)) for e in seen)
+                # the word's final value: through the iterator or through a reference local bound to it
+                cands = [fv.get(word)] + [fv.get(d["n"]) for n in f.nodes if n["k"] == "DeclStmt" for d in n["decls"]
+                                          if d.get("init") is not None and q.no_casts(f.r(d["init"])) == word and (d.get("t") or "").rstrip().endswith("&")]
+                want = B & ~(O & ~E)
+                if want == 0:
+                    if not removed:
+                        bad = (O, E, B, "every buffered flag was un-registered but the entry is not dropped")
+                elif removed:
+                    bad = (O, E, B, "the entry is dropped although the flags %d remain registered and buffered" % want)
+                elif want not in [c for c in cands if c is not None] or (fv.get(word) not in (None, want, B) ):
+                    bad = (O, E, B, "the buffered flags become %s, required %d" % ([c for c in cands if c is not None][-1:] or "?", want))
+                if bad:
+                    break
+            if bad:
+                break
+        if bad:
+            break
+    if bad is None:
+        chk.ok(rid, f, "Poll::set masks buffered events with exactly the removed flags and drops emptied entries", "%s:%s" % (f.file, f.line),
+               "decision table over registered x requested x buffered flags", evals=n_ev)
     else:
         chk.bad(rid, f, "buffered-events-not-pruned", "%s:%s" % (f.file, f.line),
-                "Poll::set: %s — an event kind that was just un-registered (e.g. read after suspend()) is still delivered from the buffered round" % why)
+                "Poll::set: with registered flags %d, requested %d, buffered %d %s — an event kind that was just un-registered (e.g. read after "
+                "suspend()) is still delivered from the buffered round (or a still wanted one is lost)" % bad, evals=n_ev)
 
 
 def run(prog, chk):
@@ -145,7 +170,10 @@ def run(prog, chk):
                 c = b.get("cond")
                 if c is not None and "&timer" in fin.key(rt, c):
                     val[fin.key(rt, c)] = 0
-            seen, end = fin.walk(rt, body, val, stop_at_loop_back=True)
+            for i_, n_ in enumerate(rt.nodes):      # the same test kept in a local (`queued = *i == &timer`)
+                if n_["k"] in ("BinaryOperator", "CXXOperatorCallExpr") and (n_.get("op") or n_.get("oop")) in ("==", "!=") and "&timer" in fin.key(rt, i_):
+                    val[fin.key(rt, i_)] = 0 if (n_.get("op") or n_.get("oop")) == "==" else 1
+            seen, end, _fv = fin.walk_vals(rt, body, val, stop_at_loop_back=True)
             verdicts[rel] = "continues" if end == "loop back" else "leaves"
         if verdicts.get("equal") == "continues":
             chk.ok("C14.T1", rt, "timer scan continues over other entries with the same due time (and %s at a later one)" % verdicts.get("greater"), "%s:%s" % (rt.file, rt.line),
